@@ -36,6 +36,7 @@ import ffcx.codegeneration.expression_generator as EG
 import ffcx.codegeneration.integral_generator as IG
 import ffcx.codegeneration.lnodes as L
 from ffcx.codegeneration.access import FFCXBackendAccess
+from ffcx.codegeneration.definitions import FFCXBackendDefinitions
 from ffcx.codegeneration.symbols import FFCXBackendSymbols
 from ffcx.ir.elementtables import UniqueTableReferenceT
 from ffcx.ir.integral import BlockDataT, ModifiedArgumentDataT, TensorPart
@@ -58,6 +59,36 @@ PARTITION_FILES = [str(_LEAN / "FfcxModel/Codegen/Partition.lean")]
 PARTITION_THEOREMS = [
     "Ffcx.Codegen.partition_ssa", "Ffcx.Codegen.uflToLnodes_sound_partial", "Ffcx.Codegen.graph_recurrence_unique",
 ]
+# stage 2 (definitions.py / access.py; composition)
+DEFS_MODULE = "FfcxProofs.C01Kernel"
+DEFS_FILES = [str(_LEAN / f) for f in (
+    "FfcxModel/Codegen/Definitions.lean", "FfcxProofs/Lemmas/CodegenDefs.lean", "FfcxProofs/C01Definitions.lean",
+    "FfcxProofs/Lemmas/CodegenPrefix.lean",
+)]
+DEFS_THEOREMS = [
+    "Ffcx.Codegen.scalar_accumulate", "Ffcx.Codegen.lincombSection_spec", "Ffcx.Codegen.coeff_lincomb",
+    "Ffcx.Codegen.coord_lincomb", "Ffcx.Codegen.coeff_isDef", "Ffcx.Codegen.coord_isDef", "Ffcx.Codegen.defs_run",
+    "Ffcx.Codegen.ssa_values_agree", "Ffcx.Codegen.prefix_run", "Ffcx.Codegen.post_values_agree",
+    "Ffcx.Codegen.kernel_meets_spec_defs_partial",
+]
+# stage 2 (C10): diagonal and tensor-factorised groups
+C10_MODULE = "FfcxProofs.C10Codegen"
+C10_FILES = [str(_LEAN / f) for f in (
+    "FfcxProofs/Lemmas/CodegenDiag.lean", "FfcxProofs/Lemmas/CodegenBox.lean", "FfcxProofs/Lemmas/CodegenTensor.lean",
+)]
+C10_THEOREMS = [
+    "Ffcx.Codegen.genBlock_diagonal_spec", "Ffcx.Codegen.diagonal_of_full",
+    "Ffcx.Codegen.nestSum_eq_boxSum", "Ffcx.Codegen.boxSum_flatten",
+    "Ffcx.Codegen.genBlock_tensor_spec", "Ffcx.Codegen.tensor_equals_full",
+    "Ffcx.Codegen.genBlock_tensor_spec1", "Ffcx.Codegen.tensor_equals_full1",
+    "Ffcx.Codegen.famNamesOk_2", "Ffcx.Codegen.famNamesOk_3",
+]
+CODEGEN_FILES = [str(_LEAN / f) for f in (
+    "FfcxModel/Codegen/Block.lean", "FfcxModel/Codegen/Spec.lean",
+    "FfcxProofs/Lemmas/CodegenAcc.lean", "FfcxProofs/Lemmas/CodegenNest.lean",
+    "FfcxProofs/Lemmas/CodegenEval.lean", "FfcxProofs/Lemmas/CodegenBlock.lean",
+    "FfcxProofs/Lemmas/CodegenGroup.lean",
+)]
 CODEGEN_THEOREMS = [
     # reusable loop rules (any trip counts, any terms)
     "Ffcx.Codegen.forRange_accumulate", "Ffcx.Codegen.nest_accumulate",
@@ -183,7 +214,95 @@ def eblock_sx(gen, blockmap, bd):
             f"({' '.join(str(int(n)) for n in ex.tensor_shape)}))")
 
 
-_EXC = {"RuntimeError", "AssertionError", "IndexError", "TypeError", "AttributeError", "UnboundLocalError", "KeyError"}
+def _domain_of(terminal):
+    try:
+        return ufl.domain.extract_unique_domain(terminal)
+    except Exception:  # noqa: BLE001
+        return None
+
+
+def mt_sx(mt):
+    """What the access/definition handlers read of a ModifiedTerminal."""
+    T = type(mt.terminal)
+    mro = [c.__name__ for c in T.__mro__]
+    bases, t = [T.__name__], T
+    while t.__bases__:
+        t = t.__bases__[0]
+        bases.append(t.__name__)
+    dom = _domain_of(mt.terminal)
+    gdim = int(dom.geometric_dimension) if dom is not None else 0
+    cell = dom.ufl_cell().cellname if dom is not None else "none"
+    av = "none" if mt.averaged is None else q(str(mt.averaged))
+    ints = lambda xs: "(" + " ".join(str(int(x)) for x in xs) + ")"  # noqa: E731
+    aux = []
+    try:  # coordinate-element data `cell_vertices` / `cell_edge_vectors` look up (Basix data, an input of the model)
+        if T.__name__ in ("CellVertices", "CellEdgeVectors"):
+            (se,) = set(dom.ufl_coordinate_element().sub_elements)
+            vd = se.entity_dofs[0]
+            if T.__name__ == "CellVertices":
+                aux = [vd[mt.component[0]][0]]
+            else:
+                v0, v1 = se.reference_topology[1][mt.component[0]]
+                aux = [vd[v0][0], vd[v1][0]]
+    except Exception:  # noqa: BLE001
+        aux = []
+    return (f"(mt ({' '.join(mro)}) ({' '.join(bases)}) {av} {_restr(mt.restriction)} {ints(mt.global_derivatives)} "
+            f"{ints(mt.local_derivatives)} {gdim} {ints(mt.component)} {int(mt.flat_component)} {q(cell)} {ints(aux)})")
+
+
+def ctx_sx(symbols, entity_type, integral_type, mt, rule):
+    """What the handlers read of the backend (before the call: `domain_numbers` is updated by it)."""
+    def opt(d):
+        try:
+            v = d.get(mt.terminal)
+        except TypeError:
+            v = None
+        return "none" if v is None else str(int(v))
+    dom = _domain_of(mt.terminal)
+    jnum = symbols.domain_numbers.get(dom, len(symbols.domain_numbers)) if dom is not None else 0
+    try:
+        nsd = int(dom.ufl_coordinate_element()._sub_element.dim)
+    except Exception:  # noqa: BLE001
+        nsd = 0
+    r = rule_sx(rule) if isinstance(rule, QuadratureRule) else "none"
+    return (f"(ctx {q(str(entity_type))} {_b(integral_type in ufl.custom_integral_types)} {r} "
+            f"{opt(symbols.coefficient_numbering)} {opt(symbols.coefficient_offsets)} "
+            f"{opt(symbols.original_constant_offsets)} {int(jnum)} {nsd})")
+
+
+def msym_sx(a):
+    if isinstance(a, (int, np.integer)) and not isinstance(a, (bool, np.bool_)):
+        return f"(py {int(a)})"
+    return export.expr(a)
+
+
+_EXC = {"RuntimeError", "AssertionError", "IndexError", "TypeError", "AttributeError", "UnboundLocalError", "KeyError",
+        "NotImplementedError"}
+
+
+def tensor_table_error(td):
+    """max |T[p][e][flat(q)][flat(i)] - prod_d TF_d[0][0][q_d][i_d]| over all entries of a tensor-factorised table
+    reference (the hypothesis `TPTables` of `tensor_equals_full`), and the table's scale."""
+    fs = td.tensor_factors
+    prod = np.ones((1,) * 0)
+    # outer product over factors: axes (q_0, i_0, q_1, i_1, ...)
+    prod = np.array(1.0)
+    for f in fs:
+        prod = np.multiply.outer(prod, np.asarray(f.values)[0, 0])
+    D = len(fs)
+    # reorder to (q_0..q_{D-1}, i_0..i_{D-1}) and flatten row-major
+    prod = np.transpose(prod, [2 * d for d in range(D)] + [2 * d + 1 for d in range(D)])
+    nq = int(np.prod(prod.shape[:D]))
+    nd = int(np.prod(prod.shape[D:]))
+    prod = prod.reshape(nq, nd)
+    full = np.asarray(td.values)
+    if full.shape[2:] != (nq, nd):
+        return float("inf"), 1.0
+    err = 0.0
+    for p_ in range(full.shape[0]):
+        for e_ in range(full.shape[1]):
+            err = max(err, float(np.abs(full[p_, e_] - prod).max()))
+    return err, max(1.0, float(np.abs(full).max()))
 
 
 def _exc_name(ex):
@@ -280,6 +399,13 @@ def capture():
             rec["state"] = state_sx(self)
         except export.ExportError as ex:
             rec["unexportable"] = str(ex)
+        try:  # numeric check of the tensor-product hypothesis on every tensor-factorised argument table
+            tp = [tensor_table_error(mad.tabledata) + (mad.tabledata.name,) for bd in blocklist for mad in bd.ma_data
+                  if mad.tabledata.tensor_factors is not None]
+            if tp:
+                rec["tp_tables"] = tp
+        except Exception as ex:  # noqa: BLE001
+            rec["tp_tables_error"] = f"{type(ex).__name__}: {ex}"
         try:
             r = o_gbp(self, quadrature_rule, domain, blockmap, blocklist)
         except Exception as ex:
@@ -367,10 +493,61 @@ def capture():
     IG.IntegralGenerator.generate_block_parts, EG.ExpressionGenerator.generate_block_parts = gbp, ebp
     IG.IntegralGenerator.generate_quadrature_loop, IG.IntegralGenerator.generate_varying_partition = gql, gvp
     IG.IntegralGenerator.generate_dofblock_partition, IG.optimize = gdp, opt
+    o_aget, o_dget = FFCXBackendAccess.get, FFCXBackendDefinitions.get
+
+    def aget(self, mt, tabledata, quadrature_rule):
+        rec = {"kind": "access"}
+        try:
+            rec["req"] = (f"(gen_access {ctx_sx(self.symbols, self.entity_type, self.integral_type, mt, quadrature_rule)} "
+                          f"{mt_sx(mt)} {'none' if tabledata is None else tref_sx(tabledata)})")
+            rec["cls"] = type(mt.terminal).__name__
+        except export.ExportError as ex:
+            rec["unexportable"] = str(ex)
+        try:
+            r = o_aget(self, mt, tabledata, quadrature_rule)
+        except Exception as ex:
+            rec["real"] = ("raise", _exc_name(ex))
+            recs.append(rec)
+            raise
+        try:
+            rec["real"] = ("ok", [msym_sx(r)])
+        except export.ExportError as ex:
+            rec["unexportable"] = str(ex)
+        recs.append(rec)
+        return r
+
+    def dget(self, mt, tabledata, quadrature_rule, access):
+        rec = {"kind": "definition"}
+        try:
+            rec["req"] = (f"(gen_definition {ctx_sx(self.symbols, self.entity_type, self.integral_type, mt, quadrature_rule)} "
+                          f"{mt_sx(mt)} {'none' if tabledata is None else tref_sx(tabledata)} {msym_sx(access)})")
+            rec["cls"] = type(mt.terminal).__name__
+        except export.ExportError as ex:
+            rec["unexportable"] = str(ex)
+        try:
+            r = o_dget(self, mt, tabledata, quadrature_rule, access)
+        except Exception as ex:
+            rec["real"] = ("raise", _exc_name(ex))
+            recs.append(rec)
+            raise
+        try:
+            rec["real"] = ("ok", [stmt_o(r)] if isinstance(r, L.Section) else [stmt_o(x) for x in r])
+            rec["section"] = isinstance(r, L.Section)
+            if rec["section"] and cur and isinstance(access, L.Symbol):
+                cur[-1].setdefault("dnames", [])
+                if access.name not in cur[-1]["dnames"]:
+                    cur[-1]["dnames"].append(access.name)
+        except export.ExportError as ex:
+            rec["unexportable"] = str(ex)
+        recs.append(rec)
+        return r
+
+    FFCXBackendAccess.get, FFCXBackendDefinitions.get = aget, dget
     IG.IntegralGenerator.generate_partition, EG.ExpressionGenerator.generate_partition = igp, egp
     try:
         yield recs
     finally:
+        FFCXBackendAccess.get, FFCXBackendDefinitions.get = o_aget, o_dget
         IG.IntegralGenerator.generate_partition, EG.ExpressionGenerator.generate_partition = o_igp, o_egp
         IG.IntegralGenerator.generate_block_parts, EG.ExpressionGenerator.generate_block_parts = o_gbp, o_ebp
         IG.IntegralGenerator.generate_quadrature_loop, IG.IntegralGenerator.generate_varying_partition = o_gql, o_gvp
@@ -450,13 +627,30 @@ def compare_record(chk, driver, rec, origin, stats, wf=True):
                 bad("generate_block_parts: intermediates", rep[2], _sl(real[2]), req)
             if rep[3] != sexp.loads(real[3]):
                 bad("generate_block_parts: fw cache after the call", rep[3], sexp.loads(real[3]), req)
+            if wf and "tp_tables_error" in rec:
+                chk.notes.setdefault("codegen_tp_tables_errors", []).append(f"{origin}: {rec['tp_tables_error']}"[:200])
+            if wf and rec.get("tp_tables"):
+                _inc(stats, "tensor_tables", "groups")
+                for err, scale, name in rec["tp_tables"]:
+                    okt = err <= 1e-10 * scale
+                    _inc(stats, "tensor_tables", "tables_ok" if okt else "tables_bad")
+                    stats["tensor_tables_maxerr"] = max(stats.get("tensor_tables_maxerr", 0.0), err / scale)
+                    if not okt:
+                        bad("tensor-factorised table is not the tensor product of its factor tables (hypothesis TPTables)",
+                            f"max error {err}", name, req[:2000])
             if wf:
                 w = driver.ask(f"(block_wf {rec['desc']} {rec['state']})")
                 flags = {k: v for k, v in w[1:]} if w[0] == "ok" else {}
                 for k, v in flags.items():
                     _inc(stats, "side_conditions", f"{k}={v}")
                 covered = flags.get("regular") == "true"
-                _inc(stats, "side_conditions", "covered_by_genBlock_spec" if covered else "outside_genBlock_spec")
+                diag = flags.get("diagonal") == "true" and flags.get("names") == "true"
+                tens = flags.get("tensor") == "true"
+                _inc(stats, "side_conditions", "covered_by_genBlock_spec" if covered else
+                     "covered_by_genBlock_diagonal_spec" if diag else
+                     "covered_by_genBlock_tensor_spec" if tens else "outside_closed_forms")
+                if diag and flags.get("coincident") == "true" and flags.get("injective") == "true":
+                    _inc(stats, "side_conditions", "diagonal_of_full_applies")
                 if covered and not (flags.get("names") == "true" and flags.get("covers") == "true"):
                     # a block of the regular shape violating no-aliasing / extent: the theorem does not apply
                     chk.disagree("side condition of genBlock_spec fails on a real block",
@@ -465,6 +659,23 @@ def compare_record(chk, driver, rec, origin, stats, wf=True):
         else:
             if rep[1:] != _sl(real[1]):
                 bad("ExpressionGenerator.generate_block_parts: quadparts", rep[1:], _sl(real[1]), req)
+    elif kind in ("access", "definition"):
+        rep = driver.ask(rec["req"])
+        real = rec["real"]
+        if rep == ["raise", "Unmodelled"]:
+            _inc(stats, "terminal_handlers" if wf else "synthetic_calls", f"{kind}:{rec['cls']}:unmodelled")
+            return True
+        tag = "section" if rec.get("section") else ("ok" if real[0] == "ok" else f"raise:{real[1]}")
+        _inc(stats, "terminal_handlers" if wf else "synthetic_calls", f"{kind}:{rec['cls']}:{tag}")
+        chk.case(kind=f"codegen_{kind}", key=f"{kind}:{rec['cls']}:{tag}:{hash(rec['req']) % 10007}" if rec.get("section") else None)
+        if rep[0] == "error":
+            bad(f"{kind}: driver error", rep, real[0], rec["req"])
+        elif real[0] == "raise":
+            if rep != ["raise", real[1]]:
+                bad(f"{kind}: exception", rep, list(real), rec["req"])
+        elif rep[0] != "ok" or rep[1:] != _sl(real[1]):
+            bad(f"codegeneration.{kind}: returned " + ("section" if kind == "definition" else "access expression"),
+                rep, _sl(real[1]) if real[0] == "ok" else list(real), rec["req"])
     elif kind == "partition":
         scope = " ".join(f"({i} {e})" for i, e in rec["pre"].items())
         req = f"(gen_partition {_b(rec['integral'])} {rec['symbol']} ({' '.join(rec['nodes'])}) ({scope}))"
@@ -529,6 +740,14 @@ def check_groups_fold(chk, driver, recs, origin, stats):
         _inc(stats, "loop_side_conditions", "covered_by_quadLoop_spec" if covered else "outside_quadLoop_spec")
         for k, v in flags.items():
             _inc(stats, "loop_side_conditions", f"{k}={v}")
+        if "inter0" in rec:
+            w2 = driver.ask(f"(prefix_wf ({' '.join(rec.get('dnames', []))}) ({' '.join(rec['fw'])}) ({' '.join(rec['inter0'])}) "
+                            f"({' '.join(g['desc'] for g in gs)}) {gs[0]['state']})")
+            f2 = {k: v for k, v in w2[1:]} if w2[0] == "ok" else {"driver": str(w2)}
+            full = covered and all(f2.get(k) == "true" for k in ("prefix", "ssa", "fwdecls", "fwlinked"))
+            _inc(stats, "loop_side_conditions", "covered_by_kernel_meets_spec_defs" if full else "outside_kernel_meets_spec_defs")
+            for k in ("prefix", "ssa"):
+                _inc(stats, "loop_side_conditions", f"{k}={f2.get(k)}")
         if covered and not (flags.get("fwdecls") == "true" and flags.get("fwlinked") == "true"):
             chk.disagree("side condition of kernel_meets_spec_partial (fw protocol) fails on a real quadrature loop",
                          {"origin": origin, "input": req[:4000], "model": flags, "impl": "generated by FFCx"})
@@ -573,6 +792,8 @@ def extra_entries():
     return [
         E("cg_tp_quad_2", tp("quadrilateral", 2), tags=("tp",), options={"sum_factorization": True}),
         E("cg_tp_hex_1", tp("hexahedron", 1), tags=("tp",), options={"sum_factorization": True}),
+        E("cg_tp_quad_1", tp("quadrilateral", 1), tags=("tp",), options={"sum_factorization": True}),
+        E("cg_tp_quad_3", tp("quadrilateral", 3), tags=("tp",), options={"sum_factorization": True}),
         E("cg_diag_p2", diag_p2, tags=("diag",), options={"part": "diagonal"}),
         E("cg_diag_vec", diag_vec, tags=("diag",), options={"part": "diagonal"}),
     ]
@@ -609,7 +830,8 @@ def check_blocks(chk, driver, entries):
 
 def _finish_stats(stats):
     stats.pop("synthetic_calls", None)
-    for k in ("branches", "side_conditions", "loop_side_conditions", "partition_ssa", "synthetic_branches"):
+    for k in ("branches", "side_conditions", "loop_side_conditions", "partition_ssa", "terminal_handlers", "tensor_tables",
+              "synthetic_branches"):
         if k in stats:
             stats[k] = dict(sorted(stats[k].items()))
 
@@ -788,6 +1010,71 @@ def synthetic_eblock(rng):
     return lambda: gen.generate_block_parts(tuple(blockmap), bd)
 
 
+_SYN_MESHES = {}
+
+
+def _syn_mesh(cell, deg=1):
+    import basix.ufl
+    key = (cell, deg)
+    if key not in _SYN_MESHES:
+        gd = {"interval": 1, "triangle": 2, "quadrilateral": 2, "tetrahedron": 3, "hexahedron": 3, "prism": 3}[cell]
+        m = ufl.Mesh(basix.ufl.element("P", cell, deg, shape=(gd,)))
+        _SYN_MESHES[key] = (m, ufl.FunctionSpace(m, basix.ufl.element("P", cell, 1)))
+    return _SYN_MESHES[key]
+
+
+def synthetic_terminal(rng):
+    """A random `access.get` + `definitions.get` call pair on real backend objects and a stub ModifiedTerminal."""
+    import ufl.geometry as G
+    cell = rng.choice(["interval", "triangle", "quadrilateral", "tetrahedron", "hexahedron", "prism"])
+    m, V = _syn_mesh(cell, rng.choice([1, 1, 2]) if cell != "prism" else 1)
+    gdim = m.geometric_dimension
+    mk = rng.choice(["Coefficient"] * 4 + ["Jacobian"] * 3 + ["SpatialCoordinate"] * 3 + [
+        "Constant", "ReferenceCellVolume", "ReferenceFacetVolume", "ReferenceNormal", "CellFacetJacobian",
+        "CellRidgeJacobian", "ReferenceCellEdgeVectors", "ReferenceFacetEdgeVectors", "FacetOrientation",
+        "CellOrientation", "CellVertices", "CellEdgeVectors", "FacetArea", "CellCoordinate"])
+    try:
+        terminal = {"Coefficient": lambda: ufl.Coefficient(V), "Constant": lambda: ufl.Constant(m, shape=(3,))}.get(
+            mk, lambda: getattr(G, mk)(m))()
+    except Exception:  # noqa: BLE001  (UFL refuses some geometry on some cells)
+        mk, terminal = "Jacobian", G.Jacobian(m)
+    err = rng.random() < 0.15
+    tp = rng.random() < 0.2
+    rule = _rand_rule(rng, tp) if rng.random() < 0.9 else 0
+    nfac = len(rule.tensor_factors) if (tp and rule) else 2
+    nsd = int(m.ufl_coordinate_element()._sub_element.dim)
+    ndofs = nsd if (mk in ("Jacobian", "SpatialCoordinate") and not (err and rng.random() < 0.3)) else rng.choice([1, 1, 2, 3, 6])
+    td = _rand_table(rng, rng.randrange(5), ndofs, tp and rng.random() < 0.8, nfac, allow_zeros=True)
+    if mk in ("Jacobian", "SpatialCoordinate") and not err and td.ttype in ("zeros", "ones"):
+        td = td._replace(ttype="varying")
+    if rng.random() < 0.15:
+        td = td._replace(ttype="ones", values=np.zeros((1, 1, 1, 1)))
+    ncomp = rng.choice([0, 1, 2])
+    comp = tuple(rng.randrange(0, 3) for _ in range(ncomp))
+    mt = types.SimpleNamespace(
+        terminal=terminal, expr=terminal, restriction=rng.choice([None, None, "+", "-"]),
+        averaged=None if rng.random() < 0.9 else "cell",
+        global_derivatives=() if rng.random() < 0.92 else (0,),
+        local_derivatives=tuple(rng.randrange(gdim) for _ in range(rng.choice([0, 0, 1, 2]))),
+        component=comp, flat_component=rng.randrange(0, 4))
+    entity_type = rng.choice(["cell", "facet", "vertex"])
+    integral_type = rng.choice(["cell", "exterior_facet", "interior_facet", "expression"] + (["custom"] if rng.random() < 0.15 else []))
+    symbols = FFCXBackendSymbols({terminal: rng.randrange(3)} if not (err and rng.random() < 0.2) else {},
+                                 {terminal: rng.choice([0, 3, 10])}, {terminal: rng.choice([0, 2])})
+    for nme in [td.name] + [f.name for f in (td.tensor_factors or [])]:
+        symbols.element_tables[nme] = L.Symbol(nme, dtype=L.DataType.REAL)
+    if rng.random() < 0.5:
+        symbols.domain_numbers[_syn_mesh("interval")[0]] = 0
+    access = FFCXBackendAccess(entity_type, integral_type, symbols, {})
+    defs = FFCXBackendDefinitions(entity_type, integral_type, access, {})
+    tdarg = None if (mk == "Constant" and rng.random() < 0.7) else td
+
+    def thunk():
+        a = access.get(mt, tdarg, rule)
+        defs.get(mt, tdarg, rule, a)
+    return thunk
+
+
 def check_synthetic(chk, driver, seed, n):
     """`n` seeded synthetic block descriptions through the real functions and the model."""
     import logging
@@ -808,7 +1095,7 @@ def check_synthetic(chk, driver, seed, n):
 def _synthetic_loop(chk, driver, seed, n, rng, stats):
     for k in range(n):
         sub = random.Random(rng.randrange(1 << 60))
-        thunk = (synthetic_eblock if k % 4 == 3 else synthetic_group)(sub)
+        thunk = (synthetic_eblock if k % 4 == 3 else synthetic_terminal if k % 4 == 2 else synthetic_group)(sub)
         with capture() as recs:
             try:
                 thunk()
@@ -818,6 +1105,9 @@ def _synthetic_loop(chk, driver, seed, n, rng, stats):
             if rec["kind"] == "quadloop":
                 continue
             compare_record(chk, driver, rec, f"synthetic:{seed}:{k}", stats, wf=False)
+            if rec["kind"] in ("access", "definition") and "real" in rec:
+                _inc(stats, "synthetic_branches", (rec["kind"], rec.get("cls"), "section" if rec.get("section") else
+                                                   ("ok" if rec["real"][0] == "ok" else rec["real"][1])))
             if "desc" in rec:
                 br = _branch(rec["desc"]) + (rec["real"][0] if rec["real"][0] == "ok" else rec["real"][1],)
                 _inc(stats, "synthetic_branches", br)
@@ -866,7 +1156,8 @@ def main(argv=None):
         print(f"real blocks: {st.get('real_blocks')}  quadrature loops: {st.get('quadloops')}  group folds: {st.get('group_folds')}  "
               f"synthetic: {st.get('synthetic')}  cases: {chk.cases}  distinct: {len(chk.keys)}  ({time.time() - t0:.1f} s)")
         print(f"partitions: {st.get('partitions')}  intermediates: {st.get('partition_intermediates')}")
-        for k in ("branches", "side_conditions", "loop_side_conditions", "partition_ssa", "synthetic_branches"):
+        for k in ("branches", "side_conditions", "loop_side_conditions", "partition_ssa", "terminal_handlers", "tensor_tables",
+                  "synthetic_branches"):
             print(f"-- {k}")
             for b, c in (st.get(k) or {}).items():
                 print(f"   {c:5d}  {b}")
